@@ -7,6 +7,7 @@ C16 — round 5c property theorems.
 -/
 import GoZero.C16.ProofsMap
 import GoZero.C16.ConcWheel
+import GoZero.C16.Reent
 namespace GoZero.C16.CW
 
 /-! ## Cache + wheel goroutines, every schedule -/
@@ -168,3 +169,130 @@ theorem stale_expiry_schedule :
   refine ⟨by decide, by decide, by decide⟩
 
 end GoZero.C16.CW
+
+/-! ## Re-entrant use: what the code does (model: Reent.lean) -/
+namespace GoZero.C16.Reent
+
+/-- behind a writer that somebody else has announced, a goroutine that holds a read lock stays where it is -/
+def StuckBehindWriter (s : RW) : Prop := s.pending = true ∧ s.tReads ≥ 1 ∧ s.writer = false
+
+theorem stuckBehindWriter_step {s s' : RW} (a : Env) (h : StuckBehindWriter s) (hs : envStep s a = some s') :
+    StuckBehindWriter s' := by
+  obtain ⟨h1, h2, h3⟩ := h
+  cases a <;> simp only [envStep, canRLock, noReaders, h1, h3] at hs
+  · simp at hs
+  · split at hs
+    · simp only [Option.some.injEq] at hs; subst hs; exact ⟨rfl, h2, rfl⟩
+    · cases hs
+  · simp at hs
+  · have : ¬ (s.tReads + s.envReads == 0) = true := by simp; omega
+    simp [this] at hs
+  · simp at hs
+
+/-- **A read (Get / Size / Range) from inside a `Range` callback, behind a pending writer: both wait for ever.**  Once
+another goroutine has called `Lock()` while T is inside `Range`, whatever the other goroutines do afterwards, T's nested
+`RLock` never passes and the writer never gets the lock (T's outer read hold never goes away). -/
+theorem range_callback_read_deadlocks_behind_pending_writer (s s' : RW) (acts : List Env)
+    (h : StuckBehindWriter s) (hr : envRun s acts = some s') :
+    canRLock s' = false ∧ envStep s' .acquire = none ∧ StuckBehindWriter s' := by
+  induction acts generalizing s with
+  | nil =>
+    simp only [envRun, Option.some.injEq] at hr; subst hr
+    obtain ⟨h1, h2, h3⟩ := h
+    refine ⟨by simp [canRLock, h1], ?_, h1, h2, h3⟩
+    have : ¬ (s.tReads + s.envReads == 0) = true := by simp; omega
+    simp [envStep, noReaders, this]
+  | cons a as ih =>
+    simp only [envRun] at hr
+    cases hs : envStep s a with
+    | none => simp [hs] at hr
+    | some s1 => simp only [hs] at hr; exact ih s1 (stuckBehindWriter_step a h hs) hr
+
+/-- without a pending or active writer the nested read passes (and leaves the lock as it found it after its RUnlock):
+Get / Size / Range from inside the callback see the same committed state as the outer Range -/
+theorem range_callback_read_passes_without_writer (s : RW) (h : s.writer = false ∧ s.pending = false ∧ s.tPending = false) :
+    canRLock s = true := by simp [canRLock, h.1, h.2.1, h.2.2]
+
+/-- T has announced its own `Lock()` from inside its read section -/
+def SelfWriter (s : RW) : Prop := s.tPending = true ∧ s.tReads ≥ 1
+
+theorem selfWriter_step {s s' : RW} (a : Env) (h : SelfWriter s) (hs : envStep s a = some s') : SelfWriter s' := by
+  obtain ⟨h1, h2⟩ := h
+  cases a <;> simp only [envStep, canRLock, noReaders, h1] at hs
+  · simp at hs
+  · split at hs
+    · simp only [Option.some.injEq] at hs; subst hs; exact ⟨rfl, h2⟩
+    · cases hs
+  · simp at hs
+  · have : ¬ (s.tReads + s.envReads == 0) = true := by simp; omega
+    simp [this] at hs
+  · split at hs
+    · simp only [Option.some.injEq] at hs; subst hs; exact ⟨rfl, h2⟩
+    · cases hs
+
+/-- **A write (Set / Del) from inside a `Range` callback waits for itself, for ever, and takes the whole map with it.**
+After T's `Lock()` has announced itself, whatever the others do: T never acquires (its own read hold is counted), and no
+other goroutine can take the read lock any more — every later Get / Size / Range / Set / Del on this map hangs. -/
+theorem range_callback_write_deadlocks (s s' : RW) (acts : List Env) (h : SelfWriter s) (hr : envRun s acts = some s') :
+    tCanAcquire s' = false ∧ canRLock s' = false ∧ envStep s' .announce = none := by
+  induction acts generalizing s with
+  | nil =>
+    simp only [envRun, Option.some.injEq] at hr; subst hr
+    obtain ⟨h1, h2⟩ := h
+    have : ¬ (s.tReads + s.envReads == 0) = true := by simp; omega
+    exact ⟨by simp [tCanAcquire, noReaders, this], by simp [canRLock, h1], by simp [envStep, h1]⟩
+  | cons a as ih =>
+    simp only [envRun] at hr
+    cases hs : envStep s a with
+    | none => simp [hs] at hr
+    | some s1 => simp only [hs] at hr; exact ih s1 (selfWriter_step a h hs) hr
+
+/-- if another writer is already pending when T wants to write, T cannot even announce — and is stuck behind that
+writer as in `range_callback_read_deadlocks_behind_pending_writer` -/
+theorem range_callback_write_behind_writer (s : RW) (h : StuckBehindWriter s) : tCanAnnounce s = false := by
+  simp [tCanAnnounce, h.1]
+
+example : envRun { tReads := 1, envReads := 2, writer := false, pending := false, tPending := true }
+    [.runlock, .runlock] = some { tReads := 1, envReads := 0, writer := false, pending := false, tPending := true } := by decide
+
+/-- T owns the call of key `k` (it is inside its loader) -/
+theorem sf_owner_stays (t k : Nat) (s s' : SF) (acts : List SFEnv) (h : (k, t) ∈ s.inflight) (hr : sfRun t s acts = some s') :
+    (k, t) ∈ s'.inflight := by
+  induction acts generalizing s with
+  | nil => simp only [sfRun, Option.some.injEq] at hr; subst hr; exact h
+  | cons a as ih =>
+    simp only [sfRun] at hr
+    cases hs : sfStep t s a with
+    | none => simp [hs] at hr
+    | some s1 =>
+      simp only [hs] at hr
+      refine ih s1 ?_ hr
+      cases a with
+      | start k' o =>
+        simp only [sfStep] at hs
+        split at hs
+        · simp only [Option.some.injEq] at hs; subst hs; exact List.mem_cons_of_mem _ h
+        · cases hs
+      | finish k' o =>
+        simp only [sfStep] at hs
+        split at hs
+        · rename_i hc
+          simp only [Option.some.injEq] at hs; subst hs
+          refine List.mem_filter.2 ⟨h, ?_⟩
+          have : (k, t) ≠ (k', o) := fun e => hc.1 (by cases e; rfl)
+          exact decide_eq_true this
+        · cases hs
+
+/-- **A loader that calls `Take` for its own key waits for itself, for ever** (if the nested Take misses, i.e. nothing
+stored the key in between): the call of `k` stays in `g.calls` whatever the other goroutines do, so the nested
+`barrier.Do(k, …)` — and every other Take of `k` that misses from now on — must wait, for ever. -/
+theorem take_reentrant_loader_deadlocks (t k : Nat) (s s' : SF) (acts : List SFEnv) (h : (k, t) ∈ s.inflight)
+    (hr : sfRun t s acts = some s') : mustWait s' k = true := by
+  have := sf_owner_stays t k s s' acts h hr
+  simp only [mustWait, List.any_eq_true]
+  exact ⟨(k, t), this, by simp⟩
+
+/-- a nested Take for ANOTHER key that nobody is loading starts its own call: no self-wait -/
+example : mustWait { inflight := [(1, 7)] } 2 = false ∧ mustWait { inflight := [(1, 7)] } 1 = true := by decide
+
+end GoZero.C16.Reent
